@@ -254,7 +254,7 @@ def compare_dag(prog, dag, modname):
         mode = n.get('mode')
         if n.get('generic_of'):
             mode = prog['nodes'][n['generic_of']].get('mode')
-        if mode == 'async':
+        if mode in ('async', 'async_tagged'):
             continue
         if mode == 'process':
             need_p = True
